@@ -19,8 +19,9 @@ Inductive dclass :=
 | XConstAssign | XRvalueGadget | XRvalueSubscript | XNotAssignable | XUnsupportedOperation
 | XNotFoundInNamespace | XNotFoundInType | XUndefinedType | XUnmodelled.
 
-Record bstate := { bs_blocks : list block; bs_locals : list tkind; bs_nparams : nat; bs_diags : list dclass }.
-Definition bstate0 := {| bs_blocks := [block0]; bs_locals := []; bs_nparams := 0; bs_diags := [] |}.
+Record bstate := { bs_blocks : list block; bs_locals : list tkind; bs_nparams : nat; bs_diags : list dclass;
+                   bs_exempt : list nat (* not part of the Rust state: locals declared by `let x: T` without initialiser *) }.
+Definition bstate0 := {| bs_blocks := [block0]; bs_locals := []; bs_nparams := 0; bs_diags := []; bs_exempt := [] |}.
 
 Inductive out (A : Type) := V (a : A) | F | P (site : string).
 Arguments V {A} a. Arguments F {A}. Arguments P {A} site.
@@ -34,16 +35,16 @@ Definition mbind {A B} (m : M A) (f : A -> M B) : M B :=
            end.
 Notation "'let!' x ':=' m 'in' f" := (mbind m (fun x => f)) (at level 200, x pattern, m at level 100, f at level 200).
 Definition fail {A} (d : dclass) : M A :=
-  fun s => (F, {| bs_blocks := bs_blocks s; bs_locals := bs_locals s; bs_nparams := bs_nparams s; bs_diags := bs_diags s ++ [d] |}).
+  fun s => (F, {| bs_blocks := bs_blocks s; bs_locals := bs_locals s; bs_nparams := bs_nparams s; bs_diags := bs_diags s ++ [d]; bs_exempt := bs_exempt s |}).
 Definition warn (d : dclass) : M unit :=
-  fun s => (V tt, {| bs_blocks := bs_blocks s; bs_locals := bs_locals s; bs_nparams := bs_nparams s; bs_diags := bs_diags s ++ [d] |}).
+  fun s => (V tt, {| bs_blocks := bs_blocks s; bs_locals := bs_locals s; bs_nparams := bs_nparams s; bs_diags := bs_diags s ++ [d]; bs_exempt := bs_exempt s |}).
 Definition panic {A} (site : string) : M A := fun s => (P site, s).
 (* run m; report whether it succeeded, never fail (Rust: keep going after a None) *)
 Definition attempt {A} (m : M A) : M (option A) :=
   fun s => match m s with (V a, s') => (V (Some a), s') | (F, s') => (V None, s') | (P x, s') => (P x, s') end.
 Definition get_state : M bstate := fun s => (V s, s).
 Definition set_blocks (bl : list block) : M unit :=
-  fun s => (V tt, {| bs_blocks := bl; bs_locals := bs_locals s; bs_nparams := bs_nparams s; bs_diags := bs_diags s |}).
+  fun s => (V tt, {| bs_blocks := bl; bs_locals := bs_locals s; bs_nparams := bs_nparams s; bs_diags := bs_diags s; bs_exempt := bs_exempt s |}).
 
 (* ---- CodeBuilder primitives ---- *)
 Fixpoint update_nth {A} (l : list A) (i : nat) (f : A -> A) : list A :=
@@ -85,14 +86,14 @@ Definition push_statement (st : tstmt) : M unit := let! r := current_ref in with
 Definition push_statement_at (r : nat) (st : tstmt) : M unit := with_block r "push_statement_at" (b_push st).
 Definition finalize_at (r : nat) (t : term) : M unit := with_block r "finalize" (b_finalize t).
 Definition push_block : M unit :=
-  fun s => (V tt, {| bs_blocks := bs_blocks s ++ [block0]; bs_locals := bs_locals s; bs_nparams := bs_nparams s; bs_diags := bs_diags s |}).
+  fun s => (V tt, {| bs_blocks := bs_blocks s ++ [block0]; bs_locals := bs_locals s; bs_nparams := bs_nparams s; bs_diags := bs_diags s; bs_exempt := bs_exempt s |}).
 Definition mark_branch_point : M nat := let! r := current_ref in let! _ := push_block in ret r.
 
 (* alloca: None for void *)
 Definition alloca (ty : tkind) : M (option operand) :=
   fun s => if tkind_eqb ty T_VOID then (V None, s)
            else (V (Some (OLocal (List.length (bs_locals s)) ty)),
-                 {| bs_blocks := bs_blocks s; bs_locals := bs_locals s ++ [ty]; bs_nparams := bs_nparams s; bs_diags := bs_diags s |}).
+                 {| bs_blocks := bs_blocks s; bs_locals := bs_locals s ++ [ty]; bs_nparams := bs_nparams s; bs_diags := bs_diags s; bs_exempt := bs_exempt s |}).
 Definition local_index (a : operand) : nat := match a with OLocal l _ => l | _ => 0 end.
 
 Definition emit_result (ty : tkind) (rv : rvalue) : M operand :=
@@ -168,7 +169,7 @@ Definition visit_function_parameter (ty : tkind) : M nat :=
            then (P "builder.rs visit_function_parameter: parameters must be declared first", s)
            else match alloca ty s with
                 | (V (Some l), s') => (V (local_index l), {| bs_blocks := bs_blocks s'; bs_locals := bs_locals s';
-                                                              bs_nparams := List.length (bs_locals s'); bs_diags := bs_diags s' |})
+                                                              bs_nparams := List.length (bs_locals s'); bs_diags := bs_diags s'; bs_exempt := bs_exempt s' |})
                 | (V None, s') => fail XUnsupportedType s'
                 | (F, s') => (F, s')
                 | (P x, s') => (P x, s')
@@ -380,7 +381,7 @@ Fixpoint finalize_bodies (bodies : list nat) : M unit :=
 
 Definition visit_switch (conds : list (operand * nat)) (bodies : list nat) (default_pos : option nat) (head_ref exit_ref : nat) : M unit :=
   let last_body_ref := last bodies exit_ref in
-  let starts0 := S exit_ref :: map S (removelast bodies) in
+  let starts0 := match bodies with [] => [] | _ => S exit_ref :: map S (removelast bodies) end in
   let! sd := (match default_pos with
               | None => ret (starts0, None)
               | Some p => match remove_nth starts0 p with
@@ -656,6 +657,10 @@ Definition walk_rvalue (E : cenv) (env : lenv) (e : expr) : M operand := let! i 
 Definition sres := (bool * lenv)%type.
 Definition sfail (env : lenv) : M sres := ret (false, env).
 
+Definition mark_exempt (l : nat) : M unit :=
+  fun s => (V tt, {| bs_blocks := bs_blocks s; bs_locals := bs_locals s; bs_nparams := bs_nparams s; bs_diags := bs_diags s;
+                     bs_exempt := l :: bs_exempt s |}).
+
 Fixpoint walk_decls (E : cenv) (k : decl_kind) (env : lenv) (vars : list (string * option (list string) * option expr)) : M sres :=
   match vars with
   | [] => ret (true, env)
@@ -682,7 +687,7 @@ Fixpoint walk_decls (E : cenv) (k : decl_kind) (env : lenv) (vars : list (string
           | Some v =>
               let! a := attempt (visit_local_assignment E local v) in
               match a with None => sfail env' | Some _ => walk_decls E k env' rest end
-          | None => walk_decls E k env' rest
+          | None => let! _ := mark_exempt local in walk_decls E k env' rest
           end
       end
   end.
